@@ -485,6 +485,34 @@ def rule_cb_guard(ctx):
            "the handler catches every Exception of the callback", broad, "" if broad else "only narrower exception types are caught")
     esc = [n for h in t.handlers for s in h.body for n in walk_no_nested(s) if isinstance(n, (ast.Raise, ast.Return, ast.Break))]
     ctx.ob("cb-guard", wk, esc[0] if esc else t, "handler body", "the handler neither re-raises nor leaves the loop: the other items are still processed", not esc)
+    # the handler itself must not be able to fail on the item: the queue item is an arbitrary object, so it may only be formatted
+    # (f-string placeholder, str(), repr()); len(), indexing, slicing, iteration or arithmetic on it raise for some item types and
+    # the exception escapes from inside the handler, killing the worker
+    gets = W.get
+    itemvars = set()
+    for g in gets:
+        for n in walk_no_nested(lp):
+            if isinstance(n, ast.Assign) and n.value is g.node and isinstance(n.targets[0], ast.Name):
+                itemvars.add(n.targets[0].id)
+    parents = {}
+    for h in t.handlers:
+        for n in ast.walk(h):
+            for ch in ast.iter_child_nodes(n):
+                parents[id(ch)] = n
+    bad_uses = []
+    for h in t.handlers:
+        for n in ast.walk(h):
+            if isinstance(n, ast.Name) and n.id in itemvars and isinstance(n.ctx, ast.Load):
+                par = parents.get(id(n))
+                safe = isinstance(par, ast.FormattedValue) or (
+                    isinstance(par, ast.Call) and isinstance(par.func, ast.Name) and par.func.id in ("str", "repr", "type", "id") and par.args == [n]) or (
+                    isinstance(par, ast.Call) and isinstance(par.func, ast.Attribute) and par.func.attr == "format")
+                if not safe:
+                    bad_uses.append(par if par is not None else n)
+    ctx.ob("cb-guard", wk, bad_uses[0] if bad_uses else t, "uses of the item inside the handler",
+           "the handler only formats the item (it is an arbitrary object): nothing in the handler can raise on it", not bad_uses,
+           "" if not bad_uses else "`%s` in the handler raises for some items (no len(), not sliceable, ...): the exception escapes from the "
+                                   "handler and the worker dies with the rest of its items unprocessed" % unparse(bad_uses[0], 60))
     # the failure path: the iteration still ends normally (loop continues) having added exactly 0 records
     cont, _exits, _ = W.iterations()
     hpaths = [e for e in cont if any((isinstance(pol, tuple) and pol and pol[0] == "handler") or pol == "handler" for (_, pol, _) in e.path)]
